@@ -176,6 +176,7 @@ def _worker(args):
     scratch = setup_env(repo)
     acc = Acc(prop, shard)
     t0 = time.time()
+    sys.stdout = open(os.devnull, 'w')  # jesse prints from some indicators / loggers; only the parent reports
     try:
         mod = importlib.import_module('vf.props.' + prop.lower())
         if kind == 'replay':
@@ -198,6 +199,72 @@ def _worker(args):
 
 
 # ----------------------------------------------------------------------------- parent side
+def _child(args, conn):
+    try:
+        conn.send(_worker(args))
+    except BaseException:
+        try:
+            conn.send(dict(prop=args[1], shard=args[2], evaluations=0, nontrivial=[], classes={}, excluded={}, samples=[],
+                           violations=[], sub={}, error=traceback.format_exc(), wall_s=0))
+        except Exception:
+            pass
+    finally:
+        conn.close()
+
+
+def _run_tasks(tasks, procs, timeout):
+    """One fresh (spawned) process per task, at most `procs` at a time. A worker that dies or exceeds the time
+    budget yields a harness error for its shard (exit 2, never a violation) instead of hanging the run."""
+    ctx = mp.get_context('spawn')
+    pending = list(enumerate(tasks))
+    running, results = {}, {}
+    while pending or running:
+        while pending and len(running) < procs:
+            i, t = pending.pop(0)
+            parent, child = ctx.Pipe(duplex=False)
+            p = ctx.Process(target=_child, args=(t, child), daemon=True)
+            p.start()
+            child.close()
+            running[i] = (p, parent, time.time(), t)
+        done = []
+        for i, (p, conn, started, t) in running.items():
+            got = None
+            try:
+                if conn.poll(0.02):
+                    got = conn.recv()
+            except (EOFError, OSError):
+                got = dict(error=f'worker for shard {t[2]} died without a result (exit code {p.exitcode})')
+            if got is None and not p.is_alive():
+                try:
+                    if conn.poll(0.2):
+                        got = conn.recv()
+                except (EOFError, OSError):
+                    pass
+                if got is None:
+                    got = dict(error=f'worker for shard {t[2]} died without a result (exit code {p.exitcode})')
+            if got is None and time.time() - started > timeout:
+                p.kill()
+                got = dict(error=f'worker for shard {t[2]} exceeded the time budget of {timeout:.0f}s (inconclusive, not a violation)')
+            if got is not None:
+                base = dict(prop=t[1], shard=t[2], evaluations=0, nontrivial=[], classes={}, excluded={}, samples=[], violations=[],
+                            sub={}, error=None, wall_s=time.time() - started)
+                base.update(got)
+                results[i] = base
+                done.append(i)
+        for i in done:
+            p, conn, _, _ = running.pop(i)
+            try:
+                conn.close()
+            except Exception:
+                pass
+            p.join(timeout=5)
+            if p.is_alive():
+                p.kill()
+        if not done:
+            time.sleep(0.05)
+    return [results[i] for i in sorted(results)]
+
+
 def _meta(prop):
     """Static metadata of a property module, read without importing jesse (modules import jesse lazily)."""
     sys.path.insert(0, HOME)
@@ -224,10 +291,8 @@ def run_check(prop, tier, seed, replay=None, nshards=NSHARDS):
         for k in range(n):
             tasks.append(('shard', prop, k, n, seed, tier, REPO, None))
 
-    ctx = mp.get_context('spawn')
-    procs = min(len(tasks), int(os.environ.get('VERIF_PROCS', '16')))
-    with ctx.Pool(processes=procs, maxtasksperchild=1) as pool:
-        results = pool.map(_worker, tasks, chunksize=1)
+    results = _run_tasks(tasks, int(os.environ.get('VERIF_PROCS', '16')),
+                         float(os.environ.get('VERIF_TASK_TIMEOUT', '900' if tier == 'quick' else '14400')))
 
     errors = [r for r in results if r['error']]
     evaluations = sum(r['evaluations'] for r in results)
